@@ -1,29 +1,29 @@
 (* Prop_C25.v -- C25: replica placement (UCSReplication) terminates and keeps replicas safe.
-   Statements only (proofs in P_Ucs.v), about the model M_Ucs.ucs_proto plugged into Net.v, for
+   Statements only (proofs in P_Ucs.v, P_Ucs2.v .. P_Ucs9.v), about the model M_Ucs.ucs_proto plugged into Net.v, for
    every well-formed deployment [wf C] (k >= 1, k_target >= 1, non-negative footprints, the
    active computations of each agent fit in its capacity), any number of agents and
    computations, any costs, and EVERY schedule of starts and per-channel-FIFO deliveries.
 
-   Full statement of C25 and what is proved of it:
+   Full statement of C25 and what is proved of it (everything, for the model):
    (1) "an agent accepts a replica only if its remaining capacity covers the new footprint plus
        the worst-case total footprint of the replicas it holds for any k-1 owners"
        -> max_footprint_spec, accept_safe, accept_safe_level, capacity_safe  (full).
    (2) "each computation's replicas end up on distinct agents other than its owner, at most k of
        them, each recorded in discovery"
-       -> placement_inv_partial, done_report_inv, replica_hosts_inv: proved for the hosts a
-       replication reports (distinct, not the owner nor any owner of the computation, at most k,
-       each holding = having registered the replica).  NOT proved: that no agent outside the
-       reported set holds a replica of the computation.  The key lemma for it IS proved:
-       ucs_token_unique (at most one request/answer token of a computation is ever in flight, for
-       every schedule); the remaining step (hosters of c = hosts of its token, which needs "no
-       handler raises") is checked by the oracle of the correspondence run on every deployment.
-   (3) "every agent eventually reports replication done" -> only the local basis is proved:
-       ucs_token_conserved_partial (a handler consuming the token of computation c posts exactly
-       one token of c, or reports c replicated, or raises: a token is never silently dropped or
-       duplicated).  NOT proved: that no handler raises and that the budget sequence is finite
-       (the UCS argument); checked by the oracle on every complete run of the correspondence
-       (symmetric routes): quiescence is reached, nothing raised, every agent reported done. *)
-From PyDcop Require Import Base Net M_Ucs P_Ucs P_Ucs2 P_Ucs3 P_Ucs4 P_Ucs5 P_Ucs6 P_Ucs7 P_Ucs8.
+       -> placement_inv (full, state form, guard uniq): hosts distinct, not owners, each holding =
+       having registered the replica, at most k, and NO agent outside the recorded set holds a
+       replica; placement_inv_partial / done_report_inv / replica_hosts_inv are the earlier
+       per-report forms (no guard); key lemmas ucs_token_unique, ucs_replicated_once,
+       ucs_holders_inv.
+   (3) "every agent eventually reports replication done"
+       -> ucs_terminates (no guard): in every schedule agents handle at most Omega messages;
+          ucs_no_raise, ucs_progress, ucs_quiescent_all_done, ucs_eventually_done (guards:
+          symmetric non-negative costs, unique names): nothing raises, nothing is lost, a
+          quiescent configuration has every agent done, and every run can be continued to one.
+          Key lemmas ucs_token_invariant, ucs_token_variant, ucs_token_conserved_partial.
+   Outside the guards the real code does fail: see design_notes/C25.md (negative route cost =
+   known finding C25-negative-route-assert; asymmetric routes are rejected by the YAML loader). *)
+From PyDcop Require Import Base Net M_Ucs P_Ucs P_Ucs2 P_Ucs3 P_Ucs4 P_Ucs5 P_Ucs6 P_Ucs7 P_Ucs8 P_Ucs9.
 
 Theorem max_footprint_spec : forall C, wf C -> forall h, fp_nonneg h ->
   (forall S, NoDup S -> Z.of_nat (List.length S) <= c_ktarget C - 1 -> total_for h S <= max_footprint C h)
@@ -151,6 +151,16 @@ Proof. exact replicate_Phi0. Qed.
    strictly decreases at every handled message (step_Psi). *)
 Theorem ucs_terminates : forall C sched, (nhandled C (init (ucs_proto C)) sched <= Omega C)%nat.
 Proof. exact ucs_terminates_l. Qed.
+
+(* (3) liveness (P_Ucs9, under the guards): every run can be continued, by finitely many further
+   actions, to a point where EVERY agent has reported replication_done.  With ucs_terminates (no
+   schedule can make agents handle more than Omega messages) this is the full statement "for any
+   agent graph, capacities, costs, k and message order, every agent eventually reports replication
+   done" for the model, under symmetric non-negative costs and unique names. *)
+Theorem ucs_eventually_done : forall C, guards C -> uniq C -> forall sched,
+  exists ext, forall n, is_agent C n = true ->
+    exists rh, In (EvDone n rh) (snd (run (ucs_proto C) (sched ++ ext))).
+Proof. exact ucs_eventually_done_l. Qed.
 
 (* non-vacuity: a well-formed 3-agent deployment (k = 2) and a complete schedule in which four
    replicas are accepted (one with a non-empty hosted set) and every agent reports done *)
